@@ -238,25 +238,20 @@ theorem dictStore_ok (f : Forest) (m : Meta) (its : Items) (key : Key) (ve : VE)
     (hf : f.ok = true) (hits : okItems m.id m.path its = true) :
     (dictStore Cfg.patched f m its key ve).ok = true := by
   unfold dictStore
-  have hv := evalVE_spec Cfg.patched ((dictDetached its key).bind Tree.id?) ve f (some m.id)
-    (isObjKind m.kind) m.part (m.path ++ [key]) hf
-  have h3 : (Forest.mapAt (evalVE Cfg.patched f ((dictDetached its key).bind Tree.id?) (some m.id)
-      (isObjKind m.kind) m.part (m.path ++ [key]) ve).1 m.id
+  have hf0 : ({ f with consumed := false } : Forest).ok = true := hf
+  have hv := evalVE_spec Cfg.patched ((dictDetached its key).bind Tree.id?) ve { f with consumed := false } (some m.id)
+    (isObjKind m.kind) m.part (m.path ++ [key]) hf0
+  have h3 : (Forest.mapAt { (evalVE Cfg.patched { f with consumed := false } ((dictDetached its key).bind Tree.id?) (some m.id)
+      (isObjKind m.kind) m.part (m.path ++ [key]) ve).1 with consumed := false } m.id
       (storeKey key key (adoptPartial (isObjKind m.kind) m.part
-        (evalVE Cfg.patched f ((dictDetached its key).bind Tree.id?) (some m.id)
+        (evalVE Cfg.patched { f with consumed := false } ((dictDetached its key).bind Tree.id?) (some m.id)
       (isObjKind m.kind) m.part (m.path ++ [key]) ve).2))).ok = true := by
-    apply mapAt_ok _ m.id _ _ (ok_of_subset hf hv.2)
+    apply mapAt_ok _ m.id _ _ (ok_of_subset hf0 hv.2)
     exact storeKey_local m.id _ _ _ (by rw [okSub_iff_okAt]; exact adopt_okAt _ _ _ _ _ hv.1)
   simp only
   split
-  · split
-    · exact h3
-    · exact addRoots_ok _ _ h3 (dictDetached_ok hits)
-  · first
-    | exact addRoots_ok _ _ h3 (dictDetached_ok hits)
-    | (split
-       · exact h3
-       · exact addRoots_ok _ _ h3 (dictDetached_ok hits))
+  · exact h3
+  · exact addRoots_ok _ _ h3 (dictDetached_ok hits)
 
 theorem rawSetDict_ok (f : Forest) (m : Meta) (its : Items) (key : Key) (ve : VE)
     (hf : f.ok = true) (hits : okItems m.id m.path its = true) :
